@@ -814,6 +814,57 @@ func c16CrossMux() {
 	emit(J{"kind": "stat", "stats": map[string]int{"cross_mux_status_pairs": pairs}})
 }
 
+// c16StatusWriteVsRead: the status resource is read (and time-stamped) by GET / on the API port and GET /status on the
+// admin port, and written by SetStatus (main goroutine: boot, shutdown) -- three parties under three different locks
+// plus the status lock.  Whatever the order, a status written by SetStatus is what the resource says once everything has
+// returned (a read does not change the status word): every one-at-a-time ordering ends that way.
+func c16StatusWriteVsRead(trials int) {
+	ch := threading.GetMainThreadChannel()
+	apiMux := new(api.Mux).Initialise().WithMainThreadChannel(&ch)
+	rs := new(server.RestServer).Initialise().WithApiMux(apiMux).WithLogger(loggers.NewNullLogger())
+	adminMux := rs.VerifC16AdminMux()
+	lost := []J{}
+	for k := 0; k < trials; k++ {
+		want := fmt.Sprintf("STATE_%d", k)
+		var wg sync.WaitGroup
+		var ready int32
+		spin := func() {
+			atomic.AddInt32(&ready, 1)
+			for atomic.LoadInt32(&ready) < 3 {
+			}
+		}
+		wg.Add(3)
+		go func() {
+			defer wg.Done()
+			spin()
+			apiMux.ServeHTTP(httptest.NewRecorder(), httptest.NewRequest("GET", "http://engine/", nil))
+		}()
+		go func() {
+			defer wg.Done()
+			spin()
+			adminMux.ServeHTTP(httptest.NewRecorder(), httptest.NewRequest("GET", "http://engine/status", nil))
+		}()
+		go func() {
+			defer wg.Done()
+			spin()
+			adminMux.SetStatus(want)
+		}()
+		wg.Wait()
+		w := httptest.NewRecorder()
+		adminMux.ServeHTTP(w, httptest.NewRequest("GET", "http://engine/status", nil))
+		var doc struct{ Status string }
+		json.Unmarshal(w.Body.Bytes(), &doc)
+		if doc.Status != want && len(lost) < 3 {
+			lost = append(lost, J{"trial": k, "status_set": want, "status_served_afterwards": doc.Status})
+		}
+	}
+	if len(lost) > 0 {
+		emit(J{"kind": "oracle", "what": "a status written while status requests were in flight on the two ports was lost: once all had returned the resource showed an older status, which no one-at-a-time ordering produces",
+			"probe": "status-write-vs-read", "requests": []J{{"method": "GET", "path": "/", "port": "api"}, {"method": "GET", "path": "/status", "port": "admin"}, {"call": "SetStatus"}}, "lost": lost})
+	}
+	emit(J{"kind": "stat", "stats": map[string]int{"status_write_vs_read_trials": trials}})
+}
+
 func runC16(args []string) {
 	tier := "quick"
 	if len(args) > 0 {
@@ -839,6 +890,11 @@ func runC16(args []string) {
 	trials, serverTrials := 260, 0
 	if tier == "thorough" {
 		trials, serverTrials = 6000, 400
+	}
+	if tier == "thorough" {
+		c16StatusWriteVsRead(300000)
+	} else {
+		c16StatusWriteVsRead(40000)
 	}
 	if v := os.Getenv("VERIF_C16_TRIALS"); v != "" {
 		trials, _ = strconv.Atoi(v)
